@@ -3,6 +3,7 @@ use vstd::prelude::*;
 verus! {
 //@include shims/path.rs
 //@include shims/std_misc.rs
+//@include shims/str_ops.rs
 //@include common/types.rs
 //@include spec/paths.rs
 
@@ -11,6 +12,7 @@ pub open spec fn name_components(name: Seq<char>) -> Seq<path::Component<'static
 //@impl src/types.rs | impl ZipFileData
 impl ZipFileData {
 //@use zfd_enclosed_name
+//@use zfd_file_name_sanitized
 }
 
 // C06 for enclosed_name as one statement: whatever it returns, joined onto any base, stays inside that base
@@ -20,6 +22,17 @@ pub proof fn lemma_enclosed_name_contained(name: Seq<char>, base: Seq<int>, k: i
             resolve(base, name_components(name), k).len() >= base.len()
 {
     lemma_safe_stays_inside(base, name_components(name), k);
+}
+// C06 for mangled_name as one statement: what it returns is made of ordinary components only and, joined onto any base, stays inside
+pub proof fn lemma_mangled_name_contained(name: Seq<char>, base: Seq<int>, k: int)
+    requires 0 <= k <= sanitized_components(name).len()
+    ensures resolve(base, sanitized_components(name), k).subrange(0, base.len() as int) == base,
+            resolve(base, sanitized_components(name), k).len() == base.len() + k,
+            forall|i: int| 0 <= i < sanitized_components(name).len() ==> #[trigger] sanitized_components(name)[i] is Normal,
+{
+    lemma_sanitized_is_safe(name);
+    lemma_safe_stays_inside(base, sanitized_components(name), k);
+    lemma_depth_of_ordinary(sanitized_components(name), k);
 }
 } // verus!
 fn main() {}
